@@ -341,7 +341,7 @@ pub assume_specification<T, U>[Option::<T>::and::<U>](a: Option<T>, b: Option<U>
             if g == 1 { lemma_sem_dead(n0, state_id as int, c, f); }
             if g != 1 {
                 lemma_link_facts(n0, f, g);
-                lemma_within_step(n0, state_id as int, f, g); lemma_max_step(n0, state_id as int, c, f, g);
+                lemma_within_step(n0, path(n0, state_id as int), f, g); lemma_max_step(n0, state_id as int, c, f, g);
                 lemma_suffix_trans(path(n0, g), path(n0, f), path(n0, state_id as int));
                 if g >= 2 { lemma_shallow_in_q(n0, q@, qi - 1, ps, g); }
                 assert forall|r: int| #[trigger] nd_ok(n0, g, c, r) implies fail_ok(n0, child_id as int, r) by {
@@ -416,7 +416,7 @@ pub assume_specification<T, U>[Option::<T>::and::<U>](a: Option<T>, b: Option<U>
     }
 //@}
 //@after 1 for verif_ref1{
-    proof { lemma_outs_finish(n0, *self, q@); lemma_outs_sound_finish(n0, *self, q@); lemma_outs_inh_finish(n0, *self, q@); if lm_dead_ok(n0) { lemma_dead_ok_frame(n0, *self); } }
+    proof { lemma_outs_finish(n0, *self, q@); lemma_outs_sound_finish(n0, *self, q@); lemma_outs_inh_finish(n0, *self, q@); if lm_dead_ok(n0) { lemma_dead_ok_frame(n0, *self); } if lm_fail_ok(n0) { lemma_lm_fail_ok_frame(n0, *self); } }
 //@}
 //@endimpl
 
